@@ -375,3 +375,83 @@ def selection_descs(rng, count, types=("d",), classes=("sym", "symsh", "herm", "
         kw["args0"] = "%d:%d:%s:%d" % (rule, 500, tol, sort)
         out.append(desc(**kw))
     return out
+
+
+GEIG = ("gchol", "greginv", "gsi", "gbuck", "gcay")
+
+
+def geig_kw(rng, cls, ty, nmax=20):
+    n = rng.randint(8, nmax)
+    nev, ncv = pick_dims(rng, n)
+    kw = dict(cls=cls, ty=ty, n=n, nev=nev, ncv=ncv, seed=rng.randint(1, 10 ** 6), fam=rng.choice(["rand", "pencil"]), lgc=rng.choice([2, 6]),
+              uplo=rng.choice(["ll", "uu", "ul", "lu"]))
+    if kw["fam"] == "pencil":
+        kw["spec"] = rng.choice(["lin", "unif"])
+    if cls == "gchol":
+        kw["store"] = rng.choice(["dd", "ss"])
+    elif cls == "greginv":
+        kw["store"] = "ss"
+    else:
+        kw["store"] = rng.choice(["dd", "ss", "sd", "ds"])
+        kw["sigma"] = rng.choice(["0.37", "-1.63", "2.45"])
+    return kw
+
+
+def history_descs_geig(rng, count, types=("d",), maxlen=2):
+    """C06 for the generalized solvers: same observation scheme as history_descs; P probes the A-side (or, for the regular
+    inverse mode, the B-side) operator."""
+    alphabet = ["I", "V1", "C0", "C1", "N"]
+    out = []
+    for i in range(count):
+        cls = GEIG[i % len(GEIG)]
+        ty = rng.choice(types)
+        kw = geig_kw(rng, cls, ty)
+        sel = rng.choice([0, 3, 7]) if cls in ("gsi", "gbuck", "gcay") else rng.choice(HERM_SEL)
+        kw["args0"] = "%d:%d:%s:%d" % (sel, rng.choice([80, 3]), tol_for(rng, ty), rng.choice(HERM_SORT))
+        kw["args1"] = "%d:%d:%s:%d" % (rng.choice([0, 3, 7]), rng.choice([0, 1, 80]), tol_for(rng, ty), rng.choice(HERM_SORT))
+        prefix = [rng.choice(alphabet) for _ in range(rng.randint(0, maxlen))]
+        obs = rng.choice(["I,C0", "V1,C0"])
+        kw["hist"] = "N,P," + obs + ",P" + ("," + ",".join(prefix) if prefix else "") + "," + obs + ",P,N," + obs + ",P"
+        kw.update(sv1="rnd", meas=0, mconv=0, ref=0)
+        out.append(desc(**kw))
+    return out
+
+
+def eigvec_start_descs(rng, count, types=("d",)):
+    """C06/C14: init(v) with v an EXACT eigenvector (e1 for a diagonal / upper triangular matrix): the residual of the step-1
+    factorization is exactly zero, which takes the 'force f to zero' branch of Arnoldi::init on a reused object."""
+    out = []
+    for i in range(count):
+        gen = i % 2 == 1
+        ty = rng.choice(types)
+        n = rng.randint(8, 20)
+        nev, ncv = pick_dims(rng, n, gen=gen)
+        rules = GEN_RULES if gen else HERM_SEL
+        sorts = GEN_RULES if gen else HERM_SORT
+        kw = dict(cls="gen" if gen else "sym", ty=ty, n=n, nev=nev, ncv=ncv, seed=rng.randint(1, 10 ** 6),
+                  args0="%d:%d:%s:%d" % (rng.choice(rules), 30, tol_for(rng, ty), rng.choice(sorts)),
+                  args1="%d:%d:%s:%d" % (rng.choice(rules), 2, tol_for(rng, ty), rng.choice(sorts)),
+                  sv1="e1", sv2="rnd", hist="N,V1,C0,N,I,C1,V2,C0,V1,C0,N,V1,C0", meas=0, mconv=0, ref=0)
+        kw.update(dict(fam="tri") if gen else dict(fam="diag", spec="lin"))
+        out.append(desc(**kw))
+    return out
+
+
+def fault_descs_extra(rng, tier_quick=True):
+    """C14 additions: breakdown-heavy inputs (expand_basis applies the operator as well) and faults in the B operator of the
+    generalized modes."""
+    out = []
+    stride = 3 if tier_quick else 1
+    for i in range(3 if tier_quick else 10):
+        n = rng.randint(10, 16)
+        out.append(desc(cls="sym", ty="d", n=n, nev=2, ncv=min(n, 7 + i % 3), seed=rng.randint(1, 10 ** 6), hist="N,I,C0,A", args0="0:6:-10:3",
+                        meas=0, mconv=0, ref=0, fstride=1 if n <= 12 else stride, foff=0, fam="presc", spec="lowrank", rank=2 + i % 2))
+        out.append(desc(cls="gen", ty="d", n=n, nev=2, ncv=min(n, 7 + i % 3), seed=rng.randint(1, 10 ** 6), hist="N,I,C0,A", args0="0:6:-10:0",
+                        meas=0, mconv=0, ref=0, fstride=1 if n <= 12 else stride, foff=0, fam="lowrank", rank=2 + i % 2))
+    for i, cls in enumerate(["greginv", "gsi", "gcay", "gbuck", "gchol"] * (1 if tier_quick else 3)):
+        kw = geig_kw(rng, cls, "d", nmax=14)
+        sel = 3 if cls == "gbuck" else 0
+        kw.update(hist="N,I,C0,A", args0="%d:4:-8:3" % sel, meas=0, mconv=0, ref=0, fstride=stride + (2 if tier_quick else 0), foff=rng.randint(0, 2),
+                  ftarget="b" if i % 2 == 0 else "a")
+        out.append(desc(**kw))
+    return out
